@@ -113,6 +113,22 @@ def prefix_composition(repo, res):
     from engine.sem import canon_node
 
     tup = canon_node(ex.expand_node(st.value))
+    if isinstance(tup, ast.Tuple) and any(isinstance(e_, ast.Starred) for e_ in tup.elts):
+        # (*row[1:3], ..., *row[4:]): unfold slices of a row into its elements (an open end stands for "the rest")
+        flat = []
+        for e_ in tup.elts:
+            if isinstance(e_, ast.Starred) and isinstance(e_.value, ast.Subscript) and isinstance(e_.value.slice, ast.Slice):
+                sl = e_.value.slice
+                lo = sl.lower.value if isinstance(sl.lower, ast.Constant) else (0 if sl.lower is None else None)
+                hi = sl.upper.value if isinstance(sl.upper, ast.Constant) else None
+                if lo is None or sl.step is not None:
+                    raise AnalysisError(f"{fn.where(st)}: starred slice not understood: {norm(e_)}")
+                stop = hi if hi is not None else 5
+                for k_ in range(lo, stop):
+                    flat.append(ast.Subscript(value=e_.value.value, slice=ast.Constant(value=k_), ctx=ast.Load()))
+            else:
+                flat.append(e_)
+        tup = ast.Tuple(elts=flat, ctx=ast.Load())
     if not isinstance(tup, ast.Tuple) or len(tup.elts) != 5:
         raise AnalysisError(f"{fn.where(st)}: stored value is not a 5-tuple")
     split = f"_split_prefix({sym}, {lut})"
